@@ -1,10 +1,19 @@
-use anyhow::ensure;
+#[cfg(not(feature = "std"))]
+use alloc::{vec, vec::Vec};
+
+use anyhow::{bail, ensure};
+use hashbrown::HashSet;
 
 use crate::field::extension::Extendable;
+use crate::field::types::Field;
 use crate::hash::hash_types::RichField;
+use crate::hash::merkle_tree::MerkleCap;
 use crate::plonk::circuit_data::CommonCircuitData;
 use crate::plonk::config::GenericConfig;
-use crate::plonk::proof::{OpeningSet, Proof, ProofWithPublicInputs};
+use crate::plonk::plonk_common::salt_size;
+use crate::plonk::proof::{
+    CompressedProofWithPublicInputs, OpeningSet, Proof, ProofWithPublicInputs,
+};
 
 pub(crate) fn validate_proof_with_pis_shape<F, C, const D: usize>(
     proof_with_pis: &ProofWithPublicInputs<F, C, D>,
@@ -34,7 +43,6 @@ where
     F: RichField + Extendable<D>,
     C: GenericConfig<D, F = F>,
 {
-    let config = &common_data.config;
     let Proof {
         wires_cap,
         plonk_zs_partial_products_cap,
@@ -44,6 +52,23 @@ where
         // validate_fri_proof_shape), so we ignore it here.
         opening_proof: _,
     } = proof;
+    validate_caps_and_openings_shape::<F, C, D>(
+        [wires_cap, plonk_zs_partial_products_cap, quotient_polys_cap],
+        openings,
+        common_data,
+    )
+}
+
+fn validate_caps_and_openings_shape<F, C, const D: usize>(
+    caps: [&MerkleCap<F, C::Hasher>; 3],
+    openings: &OpeningSet<F, D>,
+    common_data: &CommonCircuitData<F, D>,
+) -> anyhow::Result<()>
+where
+    F: RichField + Extendable<D>,
+    C: GenericConfig<D, F = F>,
+{
+    let config = &common_data.config;
     let OpeningSet {
         constants,
         plonk_sigmas,
@@ -57,9 +82,9 @@ where
     } = openings;
     let cap_height = common_data.fri_params.config.cap_height;
     // Compare lengths: `MerkleCap::height` panics unless the length is a power of two.
-    ensure!(wires_cap.len() == 1 << cap_height);
-    ensure!(plonk_zs_partial_products_cap.len() == 1 << cap_height);
-    ensure!(quotient_polys_cap.len() == 1 << cap_height);
+    for cap in caps {
+        ensure!(cap.len() == 1 << cap_height);
+    }
     ensure!(constants.len() == common_data.num_constants);
     ensure!(plonk_sigmas.len() == config.num_routed_wires);
     ensure!(wires.len() == config.num_wires);
@@ -69,5 +94,140 @@ where
     ensure!(quotient_polys.len() == common_data.num_quotient_polys());
     ensure!(lookup_zs.len() == common_data.num_all_lookup_polys());
     ensure!(lookup_zs_next.len() == common_data.num_all_lookup_polys());
+    Ok(())
+}
+
+/// Validates the shape of a compressed proof against the circuit and the query indices derived
+/// from it, so that inferring the missing coset elements and decompressing cannot index out of
+/// bounds, miss a map entry or run out of Merkle siblings, and no surplus data is silently ignored.
+pub(crate) fn validate_compressed_proof_with_pis_shape<F, C, const D: usize>(
+    proof_with_pis: &CompressedProofWithPublicInputs<F, C, D>,
+    query_indices: &[usize],
+    common_data: &CommonCircuitData<F, D>,
+) -> anyhow::Result<()>
+where
+    F: RichField + Extendable<D>,
+    C: GenericConfig<D, F = F>,
+{
+    let CompressedProofWithPublicInputs {
+        proof,
+        public_inputs,
+    } = proof_with_pis;
+    ensure!(
+        public_inputs.len() == common_data.num_public_inputs,
+        "Number of public inputs doesn't match circuit data."
+    );
+    validate_caps_and_openings_shape::<F, C, D>(
+        [
+            &proof.wires_cap,
+            &proof.plonk_zs_partial_products_cap,
+            &proof.quotient_polys_cap,
+        ],
+        &proof.openings,
+        common_data,
+    )?;
+
+    let params = &common_data.fri_params;
+    let cap_height = params.config.cap_height;
+    let fri_proof = &proof.opening_proof;
+    ensure!(fri_proof.commit_phase_merkle_caps.len() == params.reduction_arity_bits.len());
+    for cap in &fri_proof.commit_phase_merkle_caps {
+        ensure!(cap.len() == 1 << cap_height);
+    }
+    ensure!(fri_proof.final_poly.len() == params.final_poly_len());
+
+    // Initial trees: exactly one entry per distinct query index, each with one leaf per oracle.
+    let rounds = &fri_proof.query_round_proofs;
+    let instance = common_data.get_fri_instance(F::Extension::ZERO);
+    let leaf_lens = instance
+        .oracles
+        .iter()
+        .map(|o| o.num_polys + salt_size(o.blinding && params.hiding))
+        .collect::<Vec<_>>();
+    let distinct = |indices: &[usize]| {
+        let mut v = indices.to_vec();
+        v.sort_unstable();
+        v.dedup();
+        v
+    };
+    let initial_indices = distinct(query_indices);
+    ensure!(rounds.initial_trees_proofs.len() == initial_indices.len());
+    for index in &initial_indices {
+        let Some(entry) = rounds.initial_trees_proofs.get(index) else {
+            bail!("Missing initial tree proof for a query index.");
+        };
+        ensure!(entry.evals_proofs.len() == leaf_lens.len());
+        for ((leaf, _), &len) in entry.evals_proofs.iter().zip(&leaf_lens) {
+            ensure!(leaf.len() == len);
+        }
+    }
+    for tree in 0..leaf_lens.len() {
+        // `decompress` visits the entries in the order of the query indices, repetitions included.
+        let paths = query_indices
+            .iter()
+            .map(|i| rounds.initial_trees_proofs[i].evals_proofs[tree].1.siblings.len())
+            .collect::<Vec<_>>();
+        validate_compressed_paths(query_indices, &paths, params.lde_bits(), cap_height)?;
+    }
+
+    // Reduction steps: at every layer exactly one entry per distinct coset index.
+    ensure!(rounds.steps.len() == params.reduction_arity_bits.len());
+    let mut indices = query_indices.to_vec();
+    let mut height = params.lde_bits();
+    for (step, &arity_bits) in rounds.steps.iter().zip(&params.reduction_arity_bits) {
+        indices.iter_mut().for_each(|i| *i >>= arity_bits);
+        height -= arity_bits;
+        let coset_indices = distinct(&indices);
+        ensure!(step.len() == coset_indices.len());
+        for index in &coset_indices {
+            let Some(entry) = step.get(index) else {
+                bail!("Missing FRI query step for a coset index.");
+            };
+            // One evaluation of the coset is inferred rather than sent.
+            ensure!(entry.evals.len() + 1 == 1 << arity_bits);
+        }
+        let paths = indices
+            .iter()
+            .map(|i| step[i].merkle_proof.siblings.len())
+            .collect::<Vec<_>>();
+        validate_compressed_paths(&indices, &paths, height, cap_height)?;
+    }
+    Ok(())
+}
+
+/// Checks that the `i`-th compressed Merkle path holds exactly the siblings that
+/// `decompress_merkle_proofs` will take from it (same traversal, without the hashing).
+fn validate_compressed_paths(
+    leaf_indices: &[usize],
+    path_lens: &[usize],
+    height: usize,
+    cap_height: usize,
+) -> anyhow::Result<()> {
+    ensure!(cap_height <= height);
+    let num_leaves = 1usize << height;
+    let mut seen = leaf_indices
+        .iter()
+        .map(|&i| i + num_leaves)
+        .collect::<HashSet<_>>();
+    let mut consumed = vec![0; leaf_indices.len()];
+    for layer_height in 0..height - cap_height {
+        for (&i, c) in leaf_indices.iter().zip(consumed.iter_mut()) {
+            let index = (i + num_leaves) >> layer_height;
+            if seen.insert(index ^ 1) {
+                *c += 1;
+            }
+            seen.insert(index >> 1);
+        }
+    }
+    // A repeated index reuses the (same) compressed path of its first occurrence, which then
+    // provides every sibling: only first occurrences take siblings from their path.
+    let mut first_occurrence = HashSet::new();
+    for ((i, &len), &taken) in leaf_indices.iter().zip(path_lens).zip(&consumed) {
+        if first_occurrence.insert(i) {
+            ensure!(len == taken);
+        } else {
+            ensure!(taken == 0);
+        }
+    }
     Ok(())
 }
